@@ -330,7 +330,9 @@ class Check:
         self.cov['bounds'][name] = bounds
         self.lanes.append({'lane': name, 'paths': st.get('paths', 0), 'branch_decisions': st.get('decisions', 0),
                            'solver_queries': st.get('queries', 0), 'solver_s': round(st.get('solver_s', 0.0), 2),
-                           'mir_steps': st.get('steps', 0), 'wall_s': round(wall, 1), 'bounds': bounds})
+                           'mir_steps': st.get('steps', 0), 'wall_s': round(wall, 1), 'bounds': bounds,
+                           'cvc5_crosscheck': {'agree': st.get('xcheck_agree', 0), 'no_answer_in_20s': st.get('xcheck_noanswer', 0)}})
+        self.cov['cvc5_crosscheck_agree'] = self.cov.get('cvc5_crosscheck_agree', 0) + st.get('xcheck_agree', 0)
 
     def key_known(self, key):
         import fnmatch
@@ -414,6 +416,8 @@ def run_check(pid, body):
     if '--tier' in args:
         tier = args[args.index('--tier') + 1]
     chk = Check(pid, tier=tier)
+    if chk.tier == 'thorough' and 'VERIF_XCHECK' not in os.environ:
+        os.environ['VERIF_XCHECK'] = '40'        # thorough: every 40th property query is re-decided by cvc5
     try:
         body(chk)
     except Inconclusive as e:
